@@ -1,5 +1,5 @@
 """C10 — score laws and the candidate / window pre-filter (structural clauses)."""
-from ..rules import typestate, effbs, blocksize, data, guard as G, vis, summary
+from ..rules import typestate, effbs, blocksize, data, guard as G, vis, summary, features
 from ..sym import Sym, strip, show, is_param, const_value
 from ..mir import callee_of
 
@@ -40,7 +40,7 @@ def short_inputs(ctx, prog):
 
 
 def run(ctx):
-    cfgs = ["dbg", "rel"] if ctx.tier == "quick" else ["dbg", "rel", "unsafe_dbg", "unsafe", "unchecked", "nodef"]
+    cfgs = ["dbg", "rel", "unchecked"] if ctx.tier == "quick" else ["dbg", "rel", "unsafe_dbg", "unsafe", "unchecked", "nodef"]
     ctx.progs(cfgs)  # build all configurations in parallel
     for c in cfgs:
         prog = ctx.prog(c)
@@ -56,6 +56,9 @@ def run(ctx):
         ctx.guard("C10", "short", lambda: short_inputs(ctx, prog))
         ctx.guard("C10", "equiv", lambda: typestate.equiv_exact(ctx, prog))
         ctx.guard("C10", "cap", lambda: blocksize.score_cap(ctx, prog))
+        if c == "unchecked":
+            # the `_unchecked` forms of the comparison API are their `_internal` bodies (a re-implemented twin is a second, unchecked implementation)
+            ctx.guard("C10", "twins", lambda: features.twins(ctx, prog, scope='internals::compare::|position_array::', floor=8))
         ctx.guard("C10", "summaries", lambda: summary.check(ctx, prog, 'block_hash::(Index|Numeric)Windows|block_hash_[12]_(numeric_|index_)?windows|FuzzyHashCompareTarget::(is_comparison_candidate|compare)\\w*$', floor=4))
         ctx.guard("C10", "traits", lambda: vis.trait_census(ctx, prog, scope='block_hash::(Index|Numeric)Windows'))
     return ctx.finish(EXPL, ["relation beliefs are read from configurations with debug assertions on"])
